@@ -159,7 +159,17 @@ def n_loadable(c, k):
     return yaml_capable(c) and (c["kind"][0] == "gen" or HAVE_YAML) and not (c.get("validate") and not n_schema_ok(k))
 
 
+_RENDERED = {}
+
+
 def render(b) -> bytes:
+    key = (b[0], b[1])
+    if key not in _RENDERED:
+        _RENDERED[key] = _render(b)
+    return _RENDERED[key]
+
+
+def _render(b) -> bytes:
     """bytes of content b = ["d", n] | ["b", k] | ["s", k] | ["n", k].
     ["s", k] (parsable, schema-invalid) is ["b", 100+k] for the model of a validating source and ["d", 200+k] for
     the model of a non-validating one: all three render to the same bytes.  ["n", k] (YAML text of a document with
@@ -1935,8 +1945,10 @@ def gen_cases(chk):
     #     back to the previous one.  Judged like every other history: on the documents AND on the decisions taken
     #     after each reload.
     ns_alpha = ["wnew", "chk", "frc", "wprev", "chk~wnew"] + (["del", "T+"] if thorough else [])
-    ns_kinds = [["gen", 0], ["gen", 1], ["gen", 2]] + ([["file", False], ["file", True], ["http", True], ["http", False],
-                                                        ["s3", 0, None], ["s3", 1, None], ["s3", 2, 0]] if HAVE_YAML else [])
+    ns_kinds = [["gen", 0], ["gen", 1], ["gen", 2]]
+    if HAVE_YAML:       # (PyYAML's pure-Python loader: about a millisecond per load)
+        ns_kinds += [["file", False], ["http", True], ["s3", 1, None], ["file", True]]
+        ns_kinds += [["http", False], ["s3", 0, None], ["s3", 2, 0]] if thorough else []
     for kind in ns_kinds:
         for L in range(1, (4 if thorough else 3) + 1):
             for syms in itertools.product(ns_alpha, repeat=L):
@@ -2565,6 +2577,17 @@ def run(chk):
                 "without the reloader's lock is pre-empted there; if that ever happens all 924 interleavings of the "
                 "6 + 6 segments {start, etag, load, up to set_policy, set_policy, rest} x 13 write points are run as "
                 "well), and free-running threads judged on the safety clauses only. "
+                "Documents tell themselves apart by DECISIONS (document n permits exactly action a<n>): after every check "
+                "that returned True, whenever the engine of two overlapping checks shows another object or a check has "
+                "returned, and at the end of every history, probe requests are evaluated through Guard.evaluate_async and "
+                "must be decided as the document the engine shows (= the one that check loaded = the model's active "
+                "document) decides them.  In every family a case is, with probability 1/5 (custom sources) or 1/10 (file / "
+                "HTTP / S3, then reading YAML), one whose newly written documents are - with probability 0.6 or 0.9 each - "
+                "not JSON-serialisable (YAML with an unquoted date or timestamp in a top-level / nested metadata key, a "
+                "!!set, !!binary, a date as condition operand or obligation field of a rule for an action nobody requests; "
+                "custom sources hand out the Python object), its initial document and the engine's initial policy too with "
+                "some probability; family 'nonser': every history to length 3 (thorough: 4) over {new such document, check, "
+                "forced check, previous content again, check straddling a new one} for 7 (10) source configurations.  "
                 "non-trivial = at least one check and (a world event or a primed tag); distinct = distinct "
                 "(source configuration, reloader configuration, initial world, script)")
     chk.assumptions = [
@@ -2599,6 +2622,15 @@ def run(chk):
         "that leaves the lock after set_policy and takes a reloader lock again for the bookkeeping is parked in that gap "
         "as well (the reloader's lock attributes are replaced by delegating stand-ins that report acquisitions).  With "
         "the lock held no pre-emption is attempted inside the block (another check could only block on the lock)",
+        "documents that json.dumps refuses (content kind n) are ordinary loadable documents for the model (BDoc 300+k) when the "
+        "source of the case reads YAML (file / S3: a .yaml name, HTTP: YAML Content-Type or URL; custom sources return the "
+        "Python object) and unparsable text (BBad) otherwise; with validate_schema=True their acceptance is asked of "
+        "jsonschema + the bundled schema directly.  The expected decision on a probe request is fixed by construction of the "
+        "documents (document n: one rule permitting action a<n> on resource type doc; {}: none), not taken from another Guard",
+        "probe requests go through the public Guard.evaluate_async, driven by a minimal synchronous loop whose "
+        "run_in_executor runs the decision function at once in the calling thread (the engine awaits nothing but "
+        "asyncio.to_thread); if a coroutine ever wants more of its loop the requests are repeated on a real asyncio loop "
+        "(coverage.probe_requests counts both)",
         "float arithmetic: inputs are dyadic, so the only roundings are `now + 0.2` and products with jitter_ratio 0.15; "
         "suppressed_until/backoff are compared with relative tolerance 1e-9",
     ]
@@ -2631,6 +2663,8 @@ def run(chk):
                                     "set_policy_calls_without_it_(pre-empted_there)": NONATOMIC["without_lock"],
                                     "lock_released_between_set_policy_and_bookkeeping_(pre-empted_there)": NONATOMIC["gap"],
                                     "overlapping_cases_with_either": NONATOMIC["cases"]}
+    chk.extra["probe_requests"] = {"batches_on_the_synchronous_loop_(this_process_only)": PROBE_STATS["sync"],
+                                   "batches_repeated_on_a_real_event_loop": PROBE_STATS["real"]}
     chk.extra["open_finding_witness_still_fails"] = {f: witness_fails(f) for f in ("F9", "F20")}
     chk.extra["partial"] = ("the polling thread's timing loop is modelled only as 'calls check repeatedly'; network and "
                             "S3 are fakes; each etag()/load() call is atomic with respect to the world")
